@@ -314,6 +314,34 @@ Print Assumptions C19_pow.
 Print Assumptions C19_int.
 Print Assumptions C19_eval_is_fold.
 Print Assumptions C19_nocrash.
+(** Round 9: the three matchers of the model's [is_arithmetic] ARE the three regexes of tools::is_arithmetic, composed
+    as the source composes them: each equals, on every text, the search of the AST regenerated from tools.rs on every
+    run (Gen/ToolsRegexes.v via drive/regexsites.py) -- a changed literal breaks these proofs (before, the literals
+    were pinned as text only). *)
+From Cicada Require Import Base.Regex Gen.ToolsRegexes Proofs.ArithRegexProofs.
+Theorem C19_is_arithmetic_is_source_regex : forall l : str,
+  is_arithmetic l =
+  if negb (rx_search rx_arith_digit l) then false
+  else if negb (rx_search rx_arith_op l) then false
+  else rx_search rx_arith_shape l.
+Proof. exact is_arithmetic_is_source_regex. Qed.
+Theorem C19_arith_matchers_are_source_regexes : forall l : str,
+  re1_search l = rx_search rx_arith_digit l /\ re2_search l = rx_search rx_arith_op l /\
+  re3_match l = rx_search rx_arith_shape l.
+Proof. intros l. repeat split; [apply re1_is_source_regex | apply re2_is_source_regex | apply re3_is_source_regex]. Qed.
+Check C19_is_arithmetic_is_source_regex : forall l : str,
+  is_arithmetic l =
+  if negb (rx_search rx_arith_digit l) then false
+  else if negb (rx_search rx_arith_op l) then false
+  else rx_search rx_arith_shape l.
+Check C19_arith_matchers_are_source_regexes : forall l : str,
+  re1_search l = rx_search rx_arith_digit l /\ re2_search l = rx_search rx_arith_op l /\
+  re3_match l = rx_search rx_arith_shape l.
+Example C19_source_regex_nonvacuous :
+  rx_search rx_arith_shape (s2l "(1 + 2) * 3") = true /\ rx_search rx_arith_shape (s2l "1 +") = false /\
+  rx_search rx_arith_op (s2l "a^b") = true /\ rx_search rx_arith_digit (s2l "ab") = false.
+Proof. vm_compute. repeat split. Qed.
+
 Print Assumptions C19_line.
 Print Assumptions C19_string_tree.
 Print Assumptions C19_string_int.
@@ -329,3 +357,5 @@ Print Assumptions C19_render_parse_fuel.
 Print Assumptions C19_render_line.
 Print Assumptions C19_dec_literal.
 Print Assumptions C19_render_value.
+Print Assumptions C19_is_arithmetic_is_source_regex.
+Print Assumptions C19_arith_matchers_are_source_regexes.
